@@ -547,6 +547,166 @@ pub fn rt_comment() {
     std::mem::forget(w);
 }
 
+// (A whole-document round trip `write_aig` -> `parse` through the queue was tried with one item per
+// section: symbolic execution did not finish in 20 minutes. The parser's section ORDER is fixed by
+// the typed chain of section readers checked by the tr_* harnesses; the writer's order is checked
+// against the format's grammar below.)
+
+struct Expect {
+    i: usize,
+}
+
+impl Expect {
+    fn bytes(&mut self, b: &[u8]) {
+        let mut k = 0;
+        while k < b.len() {
+            let t = q::peek_at(self.i).unwrap();
+            assert!(t.kind == 0 && t.mag == b[k] as u128, "writer output differs from the AIGER grammar (literal byte)");
+            self.i += 1;
+            k += 1;
+        }
+    }
+    fn num(&mut self, v: usize) {
+        let t = q::peek_at(self.i).unwrap();
+        assert!(t.kind == 1 && !t.neg && t.mag == v as u128, "writer output differs from the AIGER grammar (number)");
+        self.i += 1;
+    }
+}
+
+/// `write_aig` emits the sections in the order and shape of the AIGER 1.9 grammar:
+/// header, inputs, latches, outputs, bad, constraints, justice sizes, justice literals, fairness,
+/// and gates, symbols, comment. Literals symbolic, shape concrete (two justice properties of
+/// different size, so sizes-then-literals is visible).
+#[kani::proof]
+pub fn w_document_order() {
+    let m: usize = 5;
+    let max_lit = 2 * m + 1;
+    let aig = Aig::<L> {
+        max_var_index: m,
+        inputs: vec![any_var_lit(max_lit)],
+        latches: vec![Latch { state: any_var_lit(max_lit), next_state: any_lit(max_lit), initialization: Some(true) }],
+        outputs: vec![any_lit(max_lit), any_lit(max_lit)],
+        bad_state_properties: vec![any_lit(max_lit)],
+        invariant_constraints: vec![any_lit(max_lit)],
+        justice_properties: vec![vec![any_lit(max_lit)], vec![any_lit(max_lit), any_lit(max_lit)]],
+        fairness_constraints: vec![any_lit(max_lit)],
+        and_gates: vec![AndGate { inputs: [any_lit(max_lit), any_lit(max_lit)], output: any_var_lit(max_lit) }],
+        symbols: vec![Symbol { target: SymbolTarget::Output(1), name: Cow::Borrowed("x") }],
+        comment: Some(String::from("x")),
+    };
+    let mut w = capture_writer();
+    Writer::<L>::new(&mut w).write_aig(&aig);
+    rt_checks();
+    let mut e = Expect { i: 0 };
+    e.bytes(b"aag");
+    for v in [m, 1, 1, 2, 1, 1, 1, 2, 1] {
+        e.bytes(b" ");
+        e.num(v);
+    }
+    e.bytes(b"\n");
+    e.num(aig.inputs[0].code());
+    e.bytes(b"\n");
+    e.num(aig.latches[0].state.code());
+    e.bytes(b" ");
+    e.num(aig.latches[0].next_state.code());
+    e.bytes(b" 1\n");
+    e.num(aig.outputs[0].code());
+    e.bytes(b"\n");
+    e.num(aig.outputs[1].code());
+    e.bytes(b"\n");
+    e.num(aig.bad_state_properties[0].code());
+    e.bytes(b"\n");
+    e.num(aig.invariant_constraints[0].code());
+    e.bytes(b"\n");
+    e.num(1);
+    e.bytes(b"\n");
+    e.num(2);
+    e.bytes(b"\n");
+    e.num(aig.justice_properties[0][0].code());
+    e.bytes(b"\n");
+    e.num(aig.justice_properties[1][0].code());
+    e.bytes(b"\n");
+    e.num(aig.justice_properties[1][1].code());
+    e.bytes(b"\n");
+    e.num(aig.fairness_constraints[0].code());
+    e.bytes(b"\n");
+    e.num(aig.and_gates[0].output.code());
+    e.bytes(b" ");
+    e.num(aig.and_gates[0].inputs[0].code());
+    e.bytes(b" ");
+    e.num(aig.and_gates[0].inputs[1].code());
+    e.bytes(b"\n");
+    e.bytes(b"o");
+    e.num(1);
+    e.bytes(b" x\n");
+    e.bytes(b"c\nx\n");
+    assert!(e.i == q::len(), "writer emitted more than the grammar allows");
+    std::mem::forget(aig);
+    std::mem::forget(w);
+}
+
+/// `write_ordered_aig` (implicit numbering made explicit in the ASCII format): inputs 2, 4, ..,
+/// then the latches' state literals, then the gates' output literals, consecutively.
+#[kani::proof]
+pub fn w_ordered_document_order() {
+    let m: usize = 5;
+    let max_lit = 2 * m + 1;
+    let aig = OrderedAig::<L> {
+        max_var_index: m,
+        input_count: 2,
+        latches: vec![OrderedLatch { next_state: any_lit(max_lit), initialization: None }],
+        outputs: vec![any_lit(max_lit)],
+        bad_state_properties: vec![],
+        invariant_constraints: vec![any_lit(max_lit)],
+        justice_properties: vec![],
+        fairness_constraints: vec![],
+        and_gates: vec![OrderedAndGate { inputs: [any_lit(max_lit), any_lit(max_lit)] }, OrderedAndGate { inputs: [any_lit(max_lit), any_lit(max_lit)] }],
+        symbols: vec![],
+        comment: None,
+    };
+    let mut w = capture_writer();
+    Writer::<L>::new(&mut w).write_ordered_aig(&aig);
+    rt_checks();
+    let mut e = Expect { i: 0 };
+    e.bytes(b"aag");
+    // trailing zero fields dropped: M I L O A B C (J = F = 0)
+    for v in [m, 2, 1, 1, 2, 0, 1] {
+        e.bytes(b" ");
+        e.num(v);
+    }
+    e.bytes(b"\n");
+    e.num(2);
+    e.bytes(b"\n");
+    e.num(4);
+    e.bytes(b"\n");
+    // latch: variable 3, uninitialised = its own literal
+    e.num(6);
+    e.bytes(b" ");
+    e.num(aig.latches[0].next_state.code());
+    e.bytes(b" ");
+    e.num(6);
+    e.bytes(b"\n");
+    e.num(aig.outputs[0].code());
+    e.bytes(b"\n");
+    e.num(aig.invariant_constraints[0].code());
+    e.bytes(b"\n");
+    e.num(8);
+    e.bytes(b" ");
+    e.num(aig.and_gates[0].inputs[0].code());
+    e.bytes(b" ");
+    e.num(aig.and_gates[0].inputs[1].code());
+    e.bytes(b"\n");
+    e.num(10);
+    e.bytes(b" ");
+    e.num(aig.and_gates[1].inputs[0].code());
+    e.bytes(b" ");
+    e.num(aig.and_gates[1].inputs[1].code());
+    e.bytes(b"\n");
+    assert!(e.i == q::len(), "writer emitted more than the grammar allows");
+    std::mem::forget(aig);
+    std::mem::forget(w);
+}
+
 #[kani::proof]
 pub fn reach_ascii_t3() {
     let header = any_header();
